@@ -88,19 +88,33 @@ func vcCloseStore(s *Store, patience time.Duration) bool {
 	}
 }
 
+// close shuts the nodes down leader first (while its peers still answer, so that its replication
+// pipelines drain), then the others, which by then get no more heartbeats: raft's heartbeat fast
+// path runs outside its main loop and panics ("failed to save current term: database not open")
+// when it meets a store whose log database Store.Close has already closed.
 func (c *vCluster) close() {
-	done := make(chan struct{}, len(c.nodes))
-	k := 0
+	var first, rest []*Store
 	for _, n := range c.nodes {
-		if n.s != nil {
-			k++
-			go func(s *Store) {
-				vcCloseStore(s, 20*time.Second)
-				done <- struct{}{}
-			}(n.s)
+		if n.s == nil {
+			continue
+		}
+		if n.s.open.Is() && n.s.raft != nil && n.s.raft.State() == raft.Leader {
+			first = append(first, n.s)
+		} else {
+			rest = append(rest, n.s)
 		}
 	}
-	for ; k > 0; k-- {
+	for _, s := range first {
+		vcCloseStore(s, 20*time.Second)
+	}
+	done := make(chan struct{}, len(rest))
+	for _, s := range rest {
+		go func(s *Store) {
+			vcCloseStore(s, 20*time.Second)
+			done <- struct{}{}
+		}(s)
+	}
+	for range rest {
 		<-done
 	}
 }
